@@ -2,6 +2,7 @@
 package c09
 
 import (
+	"strings"
 	"bytes"
 	"compress/flate"
 	"compress/zlib"
@@ -331,6 +332,15 @@ func amplifiers() []Case {
 			}
 			out = append(out, Case{Desc: fmt.Sprintf("mluc with %d records (English record: %v) all sharing one %d-unit string of %q", n, withEn, unitsN, fillUnit), Target: "icc", Data: build.SimpleProfile(tag, 0)})
 		}
+	}
+	// descriptions that are long runs of one character (or of a two-character pattern) with ordinary text on both
+	// sides: anything that tidies up text one step at a time is quadratic in the run
+	for _, fill := range []string{" ", "\t", "\n", "\r\n", "a ", "\x00", "  x"} {
+		n := 150000 / len(fill)
+		text := "Display" + strings.Repeat(fill, n) + "Calibrated"
+		out = append(out, Case{Desc: fmt.Sprintf("v2 description: text, %d x %q, text", n, fill), Target: "icc", Data: build.SimpleProfile(build.TextDesc(text), 0)})
+		out = append(out, Case{Desc: fmt.Sprintf("mluc description: text, %d x %q, text", n, fill), Target: "icc",
+			Data: build.SimpleProfile(build.Mluc([]build.MlucRec{{Lang: [2]byte{'e', 'n'}, Country: [2]byte{'U', 'S'}, Text: text}}, nil, nil, 0), 0)})
 	}
 	// long runs of one byte value after each format's signature: anything that keeps per-byte state (recursion,
 	// a growing slice) shows up as stack or heap growth, or as a crash, only for inputs of tens of MiB
